@@ -340,6 +340,8 @@ class Expander:
         `A if A is not None else B`.  Only when exactly these two definitions reach the use, the first dominates both the
         second and the use, and the second sits under exactly one more condition than the first."""
         ds = self.flow.reaching(var, at)
+        if 2 < len(ds) <= 6 and all(d.kind == 'assign' and d.value is not None and d.node is not None and id(d) not in seen for d in ds):
+            return self._tree_join(var, ds, at, depth, seen, stop)
         if len(ds) != 2 or any(d.kind != 'assign' or d.value is None or d.node is None or id(d) in seen for d in ds):
             return None
         cfg = self.flow.cfg
@@ -411,6 +413,57 @@ class Expander:
             return None
         self.expanded_paths.add(name)
         return self._x(out, hdr, depth + 1, seen | {('acc', name)}, stop)
+
+    def _tree_join(self, var, ds, at, depth, seen, stop):
+        """if c1: x = A  elif c2: x = B  else: x = C   ->   A if c1 else (B if c2 else C): the definitions reaching the use are
+        the leaves of a decision tree of tests (each definition sits directly in one branch), every test dominates the use and
+        nothing a test reads is redefined between the test and the use"""
+        cfg = self.flow.cfg
+        chains = {id(d): cfg.conditions(d.node) for d in ds}
+        if any(d.node is at for d in ds):
+            return None
+        s2 = seen | {id(d) for d in ds}
+        tests = []
+        tests_outer = [False]
+
+        def rec(group, k):
+            if len(group) == 1:
+                d = group[0]
+                if len(chains[id(d)]) != k:
+                    return None          # the definition is under a further condition nobody complements
+                return self._x(d.value, d.node, depth + 1, s2, stop)
+            if any(len(chains[id(d)]) <= k for d in group):
+                return None
+            t = chains[id(group[0])][k][0]
+            if any(chains[id(d)][k][0] is not t for d in group):
+                return None
+            T = [d for d in group if chains[id(d)][k][1]]
+            F = [d for d in group if not chains[id(d)][k][1]]
+            if not T or not F:
+                return rec(group, k + 1)
+            outer = not tests_outer[0]
+            tests_outer[0] = True
+            if outer:
+                tn0 = cfg.node_containing(t)
+                if tn0 is None or not cfg.dominates(tn0, at):
+                    return None
+            a, b = rec(T, k + 1), rec(F, k + 1)
+            if a is None or b is None:
+                return None
+            tn = cfg.node_containing(t)
+            # the outermost test must dominate the use (inner tests are only evaluated on their own side of it)
+            if tn is None:
+                return None
+            for n in ast.walk(t):
+                p = attr_path(n) if isinstance(n, (ast.Name, ast.Attribute)) else None
+                if p and not self.flow.no_def_between(p, tn, at):
+                    return None
+            tests.append(t)
+            return ast.IfExp(test=self._x(t, tn, depth + 1, s2 , stop | {var}), body=a, orelse=b)
+        out = rec(list(ds), 0)
+        if out is not None:
+            self.expanded_paths.add(var)
+        return out
 
     def _diamond(self, var, ds, at, depth, seen, stop):
         """if c: x = A  else: x = B;  ... x ...   ->   (A if c else B): the two definitions sit in the two branches of one test
